@@ -91,14 +91,18 @@ def structWanted (m : Module) (gvt : List Nat) (h : Nat) : Bool :=
 /-- the types in arena order paired with their handle -/
 def indexed (l : List α) : List (Nat × α) := (List.range l.length).zip l
 
-/-- `structs` -/
-def structs (m : Module) (o : Options) : G (List RStruct) :=
-  let gvt := globalVariableTypes m
+/-- `structs`, with the `HashSet` of variable types as a parameter (it is only ever asked
+`contains`; C18 proves the result does not depend on its iteration order) -/
+def structsWith (m : Module) (o : Options) (gvt : List Nat) : G (List RStruct) :=
   ((indexed m.types).filter fun ht => structWanted m gvt ht.1).filterMapM fun ht =>
     match ht.2.inner with
     | .struct members _ => do
       let s ← rustStruct m o gvt ht.1 ht.2 members
       pure (some s)
     | _ => pure none
+
+/-- `structs` -/
+def structs (m : Module) (o : Options) : G (List RStruct) :=
+  structsWith m o (globalVariableTypes m)
 
 end WgslVerif
